@@ -365,5 +365,52 @@ def stepLength (dz ds z s : Array α) (amax : α) : MErr (α × α) := do
 
 end
 
+/-! ## added in round 3 (C13): `set_identity_scaling` and operation histories on one cone -/
+section
+variable [Add α] [Mul α] [Sub α] [Div α] [Neg α] [OfNat α 0] [OfNat α 1] [LT α] [DecidableLT α]
+  [FloatLike α]
+
+/-- `set_identity_scaling`: `w = e₀`, `η = 1`, and for a sparse-expanded cone `d = ½`,
+`u = (1/√2)·e₀`, `v = 0` (`λ` is left as it is).  `w[0]` / `u[0]` on an empty vector panic. -/
+def setIdentityScaling (K : Cone α) : MErr (Cone α) := do
+  let w ← setE (K.w.map (fun _ => (0 : α))) 0 1 "w[0]"
+  let sp ← match K.sparse with
+    | none => pure none
+    | some sp => do
+      let u ← setE (sp.u.map (fun _ => (0 : α))) 0 (sqrt (1 / (1 + 1))) "u[0]"
+      pure (some ⟨u, sp.v.map (fun _ => (0 : α)), half⟩)
+  pure { K with w := w, eta := 1, sparse := sp }
+
+/-- one operation on a cone object -/
+inductive Op (α : Type) where
+  | update (s z : Array α)
+  | identity
+
+/-- what can be read off the cone after an operation: the flag returned by the operation
+(`true` for `set_identity_scaling`), `w`, `η`, the sparse data, `get_Hs`, and `mul_Hs x` -/
+structure Snapshot (α : Type) where
+  ok : Bool
+  w : Array α
+  eta : α
+  sparse : Option (Sparse α)
+  hs : Array α
+  y : Array α
+
+def applyOp (K : Cone α) : Op α → MErr (Bool × Cone α)
+  | .update s z => updateScaling K s z
+  | .identity => do let K' ← setIdentityScaling K; pure (true, K')
+
+/-- run a history of operations on one cone object, taking a snapshot after each -/
+def runHistory (K : Cone α) (x : Array α) : List (Op α) → MErr (List (Snapshot α))
+  | [] => pure []
+  | op :: rest => do
+    let (ok, K') ← applyOp K op
+    let hs ← getHs K'
+    let y ← mulHs K' x
+    let tail ← runHistory K' x rest
+    pure (⟨ok, K'.w, K'.eta, K'.sparse, hs, y⟩ :: tail)
+
+end
+
 end Soc
 end Clarabel
